@@ -30,7 +30,7 @@ P = {
  'C07': ("Theorems C07.<class> (21 fixed layouts: generated field table = prescribed offsets/widths/signedness, by decide over the table regenerated from /repo on this run), cfgGnss / cfgEsfla / esfStatus / monVer for ALL block counts, decoded_as_prescribed (generic, by induction over the table), valget_entries. Tie: translator + construct() of every class against the model; oracle: Spec.read at the prescribed place.",
          "R5: text fields ASCII; R6: well-formed = exactly the prescribed length; struct little-endian formats modelled, not verified.",
          "Lean 4 proof over translator-generated tables (decide + generic induction) + differential correspondence", "§7 C07"),
- 'C08': ("Theorems C08.encode_after_decode / decode_after_encode / edit_is_local (generic over well-formed tables) instantiated on every generated table and every block count. Tie: construct/pack and construct/assign/pack of every class at type boundaries; oracle: Spec.zeroReserved / Spec.rmw over the prescribed layouts.",
+ 'C08': ("Theorems C08.encode_after_decode / decode_after_encode / edit_is_local (generic over well-formed tables) instantiated on every generated table and every block count; valget_encode_after_decode (VALGET responses: every pair comes back as the key id with reserved bits cleared + the original value bytes). Tie: construct/pack and construct/assign/pack of every class at type boundaries; oracle: Spec.zeroReserved / Spec.rmw over the prescribed layouts.",
          "As C07; count fields are ordinary fields (editing a count does not rebuild the block list - modelled as the code does it).",
          "Lean 4 proof (round-trip laws by induction over the field table) + differential correspondence", "§7 C08"),
  'C09': ("Theorems C09.ubx_chunking / nmea_chunking (folding process over any partition = process of the concatenation, whole state) and ubx_restart / ubx_restart_keeps / nmea_restart (simulation relation: after restart() the parser is indistinguishable from a new one with the same filter, queue and counter offset). Tie: streams x chunkings x restart positions on both real parsers.",
